@@ -265,7 +265,7 @@ def streams(ctx):
                     if op in ("ml.start", "ml.restart", "ml.cache", "ml.tags", "ml.dump"):
                         der.append({"req": l, "index": a + i, "check": (lambda out: None)})
                         continue
-                    der.append({"req": l, "index": a + i, "history": hist, "check": (lambda out, e=e: None if out == canon_msgs(e) else ("model", canon_msgs(e)))})
+                    der.append({"req": l, "index": a + i, "history": hist, "check": (lambda out, e=e: None if canon_msgs(out) == canon_msgs(e) else ("model", canon_msgs(e)))})
             if kind == "reference":
                 for o in outs:
                     for _, ds in diags_of(o):
